@@ -41,7 +41,7 @@ def on_repo_exception(case, e):
 
 
 def valid(case):
-    return e3gen.well_posed(case) if 'devs' in case else True
+    return e3gen.well_posed(case) if 'devs' in case else e1gen.valid_case(case)
 
 
 def run_case(case, ctx):
